@@ -137,6 +137,37 @@ def run_case(case_seed, steps, stats):
     def bmax(mp):
         return max(mp.bond_dims)
 
+    def kind_of(mp):
+        return "mpdm" if isinstance(mp, MpDm) else ("mps" if isinstance(mp, Mps) else "mpo")
+
+    # every live object with the export taken when it was last legitimately produced / changed
+    live = {}
+
+    def snapshot_all():
+        for pool in (states, ops, dms):
+            for (mp, _) in pool:
+                if id(mp) not in live:
+                    live[id(mp)] = (mp, export(mp, kind_of(mp)))
+
+    def changed_live(allowed):
+        """objects whose tensors / coeff / qn / qnidx / qntot / to_right differ from their recorded export although the
+        operation was not allowed to touch them (allowed: ids of operands that Mps.add / distance may fold in place)"""
+        out = []
+        for key, (mp, exp0) in list(live.items()):
+            try:
+                now = export(mp, kind_of(mp))
+            except NotInteger:
+                now = {"nonint": True}
+            if now != exp0:
+                if key in allowed:
+                    live[key] = (mp, now)
+                else:
+                    out.append({"kind": kind_of(mp), "before": exp0, "after": now})
+                    live[key] = (mp, now)
+        return out
+
+    snapshot_all()
+
     nops = rng.randint(1, 6)
     done = 0
     tries = 0
@@ -155,7 +186,9 @@ def run_case(case_seed, steps, stats):
                 if bmax(a) + bmax(b) > MAXBOND:
                     continue
                 rec["same"] = bool(np.allclose(a.coeff, b.coeff))
+                rec["_fold_ok"] = [id(a), id(b)]
                 rec["in"] = [export(a, "mps"), export(b, "mps")]
+                rec["_operands"] = [a, b]
                 r = a.add(b)
                 rec["out"] = [export(r, "mps"), export(a, "mps"), export(b, "mps")]
                 states.append((r, qa))
@@ -167,7 +200,9 @@ def run_case(case_seed, steps, stats):
                     continue
                 b, _ = rng.choice(cands)
                 rec["same"] = bool(np.allclose(a.coeff, b.coeff))
+                rec["_fold_ok"] = [id(a), id(b)]
                 rec["in"] = [export(a, "mps"), export(b, "mps")]
+                rec["_operands"] = [a, b]
                 rec["fval"] = float(a.distance(b))          # a float (sqrt); compared with the model's exact square
                 rec["out"] = [export(a, "mps"), export(b, "mps")]
             elif opk in ("scale", "opscale"):
@@ -181,6 +216,7 @@ def run_case(case_seed, steps, stats):
                 kind = "mps" if opk == "scale" else "mpo"
                 rec["val"] = scal(v)
                 rec["in"] = [export(a, kind)]
+                rec["_operands"] = [a]
                 r = a.scale(v)
                 rec["out"] = [export(r, kind)]
                 pool.append((r, qa))
@@ -191,6 +227,7 @@ def run_case(case_seed, steps, stats):
                 a, qa = rng.choice(pool)
                 kind = "mps" if opk == "conj" else "mpo"
                 rec["in"] = [export(a, kind)]
+                rec["_operands"] = [a]
                 r = a.conj()
                 rec["out"] = [export(r, kind)]
                 pool.append((r, qa))
@@ -199,6 +236,7 @@ def run_case(case_seed, steps, stats):
                     continue
                 a, qa = rng.choice(ops)
                 rec["in"] = [export(a, "mpo")]
+                rec["_operands"] = [a]
                 r = a.conj_trans()
                 rec["out"] = [export(r, "mpo")]
                 ops.append((r, tuple(-x for x in qa)))
@@ -211,11 +249,11 @@ def run_case(case_seed, steps, stats):
                 if bmax(o) * bmax(a) > MAXBOND:
                     continue
                 rec["in"] = [export(o, "mpo"), export(a, "mps")]
+                rec["_operands"] = [o, a]
                 r = o.apply(a)
-                if not any(np.asarray(mt.array).any() for mt in r) or not all(np.asarray(mt.array).any() for mt in r):
-                    continue
                 rec["out"] = [export(r, "mps")]
-                states.append((r, tuple(x + y for x, y in zip(qa, qo))))
+                if all(np.asarray(mt.array).any() for mt in r):
+                    states.append((r, tuple(x + y for x, y in zip(qa, qo))))
                 rec["nontrivial"] = bool(any(qo) or rec["in"][0]["qnidx"] != rec["in"][1]["qnidx"])
             elif opk == "opop":
                 if not ops:
@@ -225,11 +263,11 @@ def run_case(case_seed, steps, stats):
                 if bmax(o) * bmax(b) > MAXBOND:
                     continue
                 rec["in"] = [export(o, "mpo"), export(b, "mpo")]
+                rec["_operands"] = [o, b]
                 r = o.apply(b)
-                if not all(np.asarray(mt.array).any() for mt in r):
-                    continue
                 rec["out"] = [export(r, "mpo")]
-                ops.append((r, tuple(x + y for x, y in zip(qb, qo))))
+                if all(np.asarray(mt.array).any() for mt in r):
+                    ops.append((r, tuple(x + y for x, y in zip(qb, qo))))
                 rec["nontrivial"] = bool(any(qo) or any(qb))
             elif opk == "opadd":
                 if not ops:
@@ -242,6 +280,7 @@ def run_case(case_seed, steps, stats):
                 if bmax(a) + bmax(b) > MAXBOND:
                     continue
                 rec["in"] = [export(a, "mpo"), export(b, "mpo")]
+                rec["_operands"] = [a, b]
                 r = a.add(b)
                 rec["out"] = [export(r, "mpo")]
                 ops.append((r, qa))
@@ -254,6 +293,7 @@ def run_case(case_seed, steps, stats):
                 a, qa = rng.choice(pool)
                 b, qb = rng.choice(pool)
                 rec["in"] = [export(a, kind), export(b, kind)]
+                rec["_operands"] = [a, b]
                 rec["val"] = scal(a.dot(b))
                 rec["out"] = []
             elif opk == "move":
@@ -264,6 +304,7 @@ def run_case(case_seed, steps, stats):
                 kind = "mps" if pool is states else "mpo"
                 a = a.copy()
                 rec["in"] = [export(a, kind)]
+                rec["_operands"] = []
                 rec["dst"] = rng.randrange(nsite)
                 a.move_qnidx(rec["dst"])
                 rec["out"] = [export(a, kind)]
@@ -275,8 +316,7 @@ def run_case(case_seed, steps, stats):
                 a, qa = rng.choice(real_states)
                 if a.is_complex:
                     continue
-                d = MpDm.from_mps(a)
-                d.qntot = np.array(d.qntot).copy()
+                d = MpDm.from_mps(a)      # shares a.qntot (the live-object scan notices if anything writes through it)
                 dms.append((d, qa))
                 continue
             elif opk == "dmadd":
@@ -290,7 +330,9 @@ def run_case(case_seed, steps, stats):
                 if bmax(a) + bmax(b) > MAXBOND:
                     continue
                 rec["same"] = bool(np.allclose(a.coeff, b.coeff))
+                rec["_fold_ok"] = [id(a), id(b)]
                 rec["in"] = [export(a, "mpdm"), export(b, "mpdm")]
+                rec["_operands"] = [a, b]
                 r = a.add(b)
                 rec["out"] = [export(r, "mpdm"), export(a, "mpdm"), export(b, "mpdm")]
                 dms.append((r, qa))
@@ -303,11 +345,11 @@ def run_case(case_seed, steps, stats):
                 if bmax(o) * bmax(d) > MAXBOND:
                     continue
                 rec["in"] = [export(o, "mpo"), export(d, "mpdm")]
+                rec["_operands"] = [o, d]
                 r = o.apply(d)
-                if not all(np.asarray(mt.array).any() for mt in r):
-                    continue
                 rec["out"] = [export(r, "mpdm")]
-                dms.append((r, tuple(x + y for x, y in zip(qd, qo))))
+                if all(np.asarray(mt.array).any() for mt in r):
+                    dms.append((r, tuple(x + y for x, y in zip(qd, qo))))
                 rec["nontrivial"] = bool(any(qo))
             elif opk == "dmapply_r":
                 if not dms or not ops:
@@ -317,11 +359,11 @@ def run_case(case_seed, steps, stats):
                 if bmax(o) * bmax(d) > MAXBOND:
                     continue
                 rec["in"] = [export(d, "mpdm"), export(o, "mpo")]
+                rec["_operands"] = [d, o]
                 r = d.apply(o)
-                if not all(np.asarray(mt.array).any() for mt in r):
-                    continue
                 rec["out"] = [export(r, "mpdm")]
-                dms.append((r, qd))
+                if all(np.asarray(mt.array).any() for mt in r):
+                    dms.append((r, qd))
                 rec["nontrivial"] = bool(any(qo))
             else:
                 continue
@@ -329,11 +371,22 @@ def run_case(case_seed, steps, stats):
             stats["nonint"] = stats.get("nonint", 0) + 1
             continue
         except Exception as ex:
+            rec.pop("_operands", None)
+            rec.pop("_fold_ok", None)
             rec["exception"] = repr(ex)
             rec["tb"] = traceback.format_exc()[-800:]
             rec.pop("out", None)
             steps.append(rec)
             return
+        # operands AFTER the call (they must be unchanged except for the documented prefactor folding of Mps.add /
+        # Mps.distance) and every other live object
+        try:
+            rec["after"] = [export(x, d["kind"]) for x, d in zip(rec.pop("_operands", []), rec["in"])]
+        except NotInteger:
+            rec["after"] = None
+        allowed = set(rec.pop("_fold_ok", []))
+        rec["live_changed"] = changed_live(allowed)
+        snapshot_all()
         steps.append(rec)
         done += 1
         stats.setdefault("ops", {})
